@@ -77,6 +77,7 @@ func propTamper(t *rapid.T, c *cx) {
 				c.name, comp, how, err, want, base, hx(C.K), hx(H.K), hx(v), hx(z))
 		}
 		cls := []string{"tamper:" + comp, "tamper:" + comp + ":" + how, "tuple:" + verdict(err), scls, "tamper:single"}
+		cls = append(cls, purityCls()...)
 		if want {
 			cls = append(cls, "tamper:still_true")
 		}
@@ -113,7 +114,7 @@ func propTamperBatch(t *rapid.T, c *cx) {
 	size := rapid.IntRange(2, 12).Draw(t, "size")
 	s, scls := c.newSRS(t, size, false)
 	e, F := s.E, c.F
-	ps, z, cls0, _ := c.drawBatchInput(t, s, 5)
+	ps, z, cls0, _ := c.drawBatchInput(t, s, 5, 4)
 	data := drawData(t, "sha256")
 	hb := c.batchOpen(t, s, ps, z, data, false, "sha256")
 	// another honest batch of the same shape at another point
@@ -149,6 +150,7 @@ func propTamperBatch(t *rapid.T, c *cx) {
 		if n < 2 {
 			cls = cls[:len(cls)-1]
 		}
+		cls = append(cls, purityCls()...)
 		if want {
 			cls = append(cls, "tamper:still_true")
 		}
@@ -264,6 +266,7 @@ func propTamperMulti(t *rapid.T, c *cx) {
 			t.Fatalf("%s: multi-point tampering %s := %s (claim %d): BatchVerifyMultiPoints returned %v but all-claims-true is %v (%s)", c.name, comp, how, j, err, want, base)
 		}
 		cls := []string{"tamper:" + comp, "tamper:" + comp + ":" + how, "tuple:" + verdict(err), scls, "tamper:multi", "batch>=2"}
+		cls = append(cls, purityCls()...)
 		if want {
 			cls = append(cls, "tamper:still_true")
 		}
